@@ -673,11 +673,11 @@ def introspect_year(H, year):
                         'pdf_file': obj.pdf_file(), 'n_pdf_fields': len(obj.pdf_fields()), 'obj': obj}
                 for i in obj.inputs():
                     d = {'name': i.base_name(), 'cls': type(i).__name__}
-                    if hasattr(i, 'enum') and isinstance(getattr(i, 'enum', None), type):
+                    if isinstance(vars(i).get('enum'), type):
                         d['enum'] = enums.name_of(i.enum)
                         d['members'] = list(i.enum.__members__.keys())
                         d['allow_empty'] = bool(i.allow_empty)
-                    if hasattr(i, '_regex_str'):
+                    if '_regex_str' in vars(i):
                         d['regex'] = i._regex_str
                     d['help'] = i.help()
                     irec['inputs'].append(d)
@@ -725,7 +725,7 @@ def translate_year(H, year):
         for i in obj.inputs():
             inputs_txt.append('(%s, %s)' % (cstr(i.base_name()), cstr(type(i).__name__)))
             d = {'cls': type(i).__name__}
-            if isinstance(getattr(i, 'enum', None), type):
+            if isinstance(vars(i).get('enum'), type):
                 d['enum'] = enums.name_of(i.enum)
                 d['members'] = list(i.enum.__members__.keys())
                 d['allow_empty'] = bool(i.allow_empty)
